@@ -13,7 +13,9 @@
    the theorems say these two results are unreachable for ALL inputs and configurations, and that an accepted
    head consumes exactly the head's own length by fasthttp's line rule.  The remaining parsers of the list
    (bodies, trailers, Cookie, URI, Args, ParseByteRange, VisitHeaderParams, multipart) are covered by the
-   fuzzing harness only (search for panics / hangs / over-reads on the real code; see props/C08.json). *)
+   fuzzing harness only (search for panics / hangs / over-reads on the real code; see props/C08.json) —
+   EXCEPT the body readers and the trailer framing, which are proved in the section "body readers (Model/Body.v)"
+   appended at the end of this file. *)
 From FH Require Import Model.Base Model.Lines Model.ReqHead Model.RespHead Spec.HeadSpec
   Proof.ScannerProof Proof.HeadTotalProof.
 Open Scope nat_scope.
@@ -77,3 +79,83 @@ Example C08_ex_heads :
   req_head_parse default_cfg (s2b "GET / HTTP/1.1" ++ [CR; LF] ++ s2b "Host: h" ++ [CR; LF]) = HNeedMore /\
   req_head_parse default_cfg (s2b "GET / HTTP/1.1" ++ [CR; LF] ++ s2b "Host h" ++ [CR; LF; CR; LF]) = HErr EMissingColon.
 Proof. vm_compute. repeat split; try reflexivity. eexists; reflexivity. Qed.
+
+(* ====================================================================================================== *)
+(* body readers (Model/Body.v) — section added by the owner of Model/Body.v (m-c07-c34); the theorems above
+   are unchanged.  Proofs live in Proof/BodyProof.v and Proof/BodyTotalProof.v.
+
+   Model/Body.v models readBody, appendBodyFixedSize, readBodyChunked, parseChunkSize (readHexInt, chunk
+   extensions, readCrLf), readBodyIdentity, the framing part of ReadTrailer, and Request.ContinueReadBody+ReadBody
+   / Response.ReadBody (reqReadBody / respReadBody) over "the unread input, then io.EOF".  Go panics are explicit:
+   BPanic = make([]byte, n) above runtime.maxAlloc = 2^48 ("makeslice: len out of range"), a negative slice bound,
+   or readBodyChunked's "BUG: expected zero-length buffer"; BOutOfFuel = the model's loop fuel ran out.
+   These theorems are NOT _partial for the body readers: they hold for every framing (cl >= 0 fixed, -1 chunked
+   incl. extensions and the trailer framing, anything else identity), every input of bytes, every split of an
+   identity body into reads (rs) and every positive limit L with L + 2 <= maxAlloc.  The trailer FIELDS are parsed
+   by parseTrailer (head-scanner territory): it is the parameter parseTr here, any function. *)
+From FH Require Import Gen.GenC30 Gen.GenC34 Model.Ints Model.Body Model.BodyWrite Proof.BodyProof Proof.BodyTotalProof.
+Open Scope Z_scope.
+
+(* no panic, no non-termination *)
+Theorem C08_body_total : forall parseTr cl L cap0 rs b, 0 < L -> L + 2 <= maxAlloc -> wf_bytes b ->
+  respReadBody parseTr cl L cap0 rs b <> BPanic /\ respReadBody parseTr cl L cap0 rs b <> BOutOfFuel /\
+  reqReadBody parseTr cl L b <> BPanic /\ reqReadBody parseTr cl L b <> BOutOfFuel.
+Proof.
+  intros parseTr cl L cap0 rs b HL Ha Hwf.
+  pose proof (respReadBody_total parseTr cl L cap0 rs b HL Ha Hwf) as H1.
+  pose proof (reqReadBody_total parseTr cl L b HL Ha Hwf) as H2. unfold bad in *. tauto.
+Qed.
+Print Assumptions C08_body_total.
+
+(* no over-read.  When a body is returned, `rest` is a suffix of the input and what was consumed in front of it
+   is exactly the framed body:
+     fixed     b = body ++ rest with |body| = Content-Length;
+     chunked   b = pre ++ tr ++ rest where `framed pre body` — pre is chunk-size lines as parseChunkSize accepts
+               them, each followed by exactly that many data bytes and CRLF, up to and including the size-0
+               line, body the concatenation of the data — and tr is the trailer section up to and including its
+               terminating CRLF: the bare CRLF, or the k bytes parseTrailer consumed of the block that ends at
+               the first CRLFCRLF;
+     identity  the whole input (until the peer closes). *)
+Theorem C08_body_no_overread_response : forall parseTr cl L cap0 rs b body rest pk, 0 < L -> wf_bytes b ->
+  respReadBody parseTr cl L cap0 rs b = BOk body rest pk ->
+  if cl >=? 0 then b = body ++ rest /\ blen body = cl
+  else if cl =? -1 then
+    exists pre tr, b = pre ++ tr ++ rest /\ framed pre body /\
+                   (tr = strCRLF \/ exists blk k, parseTr blk = Some k /\ tr = btake k blk)
+  else body = b /\ rest = [].
+Proof. exact respReadBody_no_overread. Qed.
+Print Assumptions C08_body_no_overread_response.
+
+(* requests: the same, and no body at all is read without Content-Length / Transfer-Encoding (cl = -2) *)
+Theorem C08_body_no_overread_request : forall parseTr cl L b body rest pk, 0 < L -> wf_bytes b ->
+  reqReadBody parseTr cl L b = BOk body rest pk ->
+  if cl =? -2 then body = [] /\ rest = b else consumed_exactly parseTr cl b body rest.
+Proof. exact reqReadBody_no_overread. Qed.
+Print Assumptions C08_body_no_overread_request.
+
+(* the chunk-size line is delimited by its own bytes: parseChunkSize never looks behind its CRLF *)
+Theorem C08_parseChunkSize_local : forall b n r, parseChunkSize b = PCOk n r ->
+  exists hdr, b = hdr ++ r /\ forall r', parseChunkSize (hdr ++ r') = PCOk n r'.
+Proof. exact parseChunkSize_local. Qed.
+Print Assumptions C08_parseChunkSize_local.
+
+(* the boundary fact: maxHexIntChars = 15 hex digits, so a chunk size is below 16^15 = 2^60 and
+   len(dst) + chunkSize (+ 2 for the CRLF) cannot wrap a 64-bit int for any buffer Go can hold (< 2^62) *)
+Theorem C08_chunk_size_cannot_wrap : forall b n r, wf_bytes b -> parseChunkSize b = PCOk n r ->
+  0 <= n < 2 ^ 60 /\ forall dstlen, 0 <= dstlen < 2 ^ 62 -> dstlen + n + 2 < 2 ^ 63.
+Proof.
+  intros b n r Hwf E. pose proof (chunk_size_range b n r Hwf E) as H. split; [exact H|].
+  intros dstlen Hd. change (2 ^ 62) with 4611686018427387904 in Hd. change (2 ^ 60) with 1152921504606846976 in H.
+  change (2 ^ 63) with 9223372036854775808. Lia.lia.
+Qed.
+Print Assumptions C08_chunk_size_cannot_wrap.
+
+Example C08_ex_chunk_size_boundary :
+  maxHexIntChars64 = 15
+  /\ parseChunkSize (s2b "fffffffffffffff" ++ [13; 10; 120]%N) = PCOk (2 ^ 60 - 1) [120%N]
+  /\ parseChunkSize (s2b "1000000000000000" ++ [13; 10]%N) = PCErr ETooLargeHex
+  /\ parseChunkSize (s2b "7fffffffffffffff" ++ [13; 10]%N) = PCErr ETooLargeHex
+  (* with a limit the huge size is rejected before anything is allocated; without one the allocation panics *)
+  /\ readBodyChunked 4096 [] (s2b "fffffffffffffff" ++ [13; 10; 120]%N) = BErr EBodyTooLarge [] 0
+  /\ readBodyChunked 0 [] (s2b "fffffffffffffff" ++ [13; 10; 120]%N) = BPanic.
+Proof. vm_compute. repeat split; reflexivity. Qed.
